@@ -95,7 +95,9 @@ def run_property(pid, tier, seed, args):
     mine = [c for c in contracts if pid in c.properties]
     for c in contracts:
         c.active_property = pid
-    used_lemmas = [l for l in lemmas if pid in getattr(l, 'properties', (pid,)) or True]
+    from .contract import reset_generated_lemmas, _LEMMAS_DONE, Lemma as _L
+    reset_generated_lemmas()
+    used_lemmas = []          # lemmas are pulled in by the proofs that use them (Proof.use -> Proof.need)
 
     reports = []
     obligations = []
@@ -214,11 +216,16 @@ def run_property(pid, tier, seed, args):
             undecided.append(ob.name)
             log('UNDECIDED property=%s obligation=%s solver=%s' % (pid, ob.name, r.get('reason', r['status'])))
     # native failures that no obligation explains (runtime contract violated on a real input)
+    seen_nat = set()
     for nf in nat['failures']:
         kf = N.match_known_native(known, nf)
         if kf is not None:
             known_hits.append((kf, None, nf))
             continue
+        keyn = (nf.get('contract'), nf.get('case'), nf.get('clause'))
+        if keyn in seen_nat:
+            continue
+        seen_nat.add(keyn)
         rp = N.write_replay(pid, None, None, nf, None)
         lines.append('VIOLATION property=%s replay=%s native-contract=%s' % (pid, rp, nf['contract']))
         violations += 1
@@ -286,7 +293,8 @@ def run_property(pid, tier, seed, args):
             'trusted_base': spec.get('trusted_base', []) + sorted('library model: ' + n for n in all_notes),
             'explanation': spec.get('explanation', ''),
             'functions_under_contract': fns,
-            'lemmas': [{'name': l.name, 'induction': l.induct[0] if l.induct else None} for l in used_lemmas],
+            'lemmas': [{'name': n, 'induction': (_L.REG[n].induct[0] if _L.REG[n].induct else None)}
+                       for n in sorted(_LEMMAS_DONE) if n in _L.REG],
             'per_obligation': per_ob,
             'solver_wall_s': round(solve_wall, 2),
             'solver_cpu_s': round(sum(r['time'] for r in results.values()), 2),
